@@ -459,7 +459,9 @@ impl World {
     pub fn ev(&mut self, s: String) {
         self.hasher.update(s.as_bytes());
         self.hasher.update(b"\n");
-        if self.log_tail.len() < 400 {
+        static CAP: std::sync::OnceLock<usize> = std::sync::OnceLock::new();
+        let cap = *CAP.get_or_init(|| if std::env::var("VERIF_FULL_LOG").is_ok() { 10_000_000 } else { 400 });
+        if self.log_tail.len() < cap {
             self.log_tail.push(s);
         }
     }
